@@ -91,7 +91,8 @@ def gen_binding(rng, sig, values=None, method=False):
         # surplus keywords; a keyword may legally repeat the NAME of a positional-only parameter (it lands in **kw)
         # ... and any other name is a legal surplus keyword too, e.g. the names the wrapper's own methods use
         # ('*' and '**' are the names joblib's own key uses for the surplus arguments; they can be passed with ** unpacking)
-        names = ["zz", "yy", "aa", "self", "args", "func", "*", "**"] + [s[1] for s in sig if s[0] == "P"] * 2
+        # ... and so may the names of the function's own *args / **kwargs parameters: f(1, kwargs=2)
+        names = ["zz", "yy", "aa", "self", "args", "func", "*", "**"] + [s[1] for s in sig if s[0] == "P"] * 2 + [s[1] for s in sig if s[0] in "VW"]
         if method and not any(s[0] == "P" for s in sig):
             names.remove("self")      # 'self' is positional-or-keyword there: Python rejects the keyword
         for k in set(rng.sample(names, min(len(names), rng.randint(1, 2)))):
